@@ -425,6 +425,12 @@ def classes_of(D):
 def build(pm, D, rng=None, use_checksums_add=False):
     """pm: productmd.treeinfo module."""
     ti = pm.TreeInfo()
+    maker = ti
+    if D.get("variants_made_for_another_tree"):
+        # Variant(<tree>) only names the tree the object is made for; a tool that assembles a tree from the variants of
+        # another one (a src tree from the binary tree's variants, or the other way round) adds them as they are
+        maker = pm.TreeInfo()
+        maker.tree.arch = "x86_64" if D["tree"]["arch"] == "src" else "src"
 
     def s_release():
         ti.release.name = D["release"]["name"]
@@ -450,7 +456,7 @@ def build(pm, D, rng=None, use_checksums_add=False):
         if rng is not None:
             rng.shuffle(order)
         for v in order:
-            build_variant(pm, ti, None, v, rng)
+            build_variant(pm, ti, None, v, rng, maker=maker)
 
     def s_images():
         items = list(D["images"].items())
@@ -491,8 +497,8 @@ def build(pm, D, rng=None, use_checksums_add=False):
     return ti
 
 
-def build_variant(pm, ti, parent_obj, v, rng):
-    var = pm.Variant(ti)
+def build_variant(pm, ti, parent_obj, v, rng, maker=None):
+    var = pm.Variant(ti if maker is None else maker)
     var.id = v["id"]
     var.uid = v["uid"]
     var.name = v["name"]
@@ -517,7 +523,7 @@ def build_variant(pm, ti, parent_obj, v, rng):
         if rng is not None:
             rng.shuffle(order)
         for c in order:
-            build_variant(pm, ti, var, c, rng)
+            build_variant(pm, ti, var, c, rng, maker=maker)
     if rng is not None and rng.random() < 0.5:
         kids()
         attach()
